@@ -102,8 +102,15 @@ def build_case(ctx, cli, tmp, case):
     src = os.path.join(tmp, 'src')
     os.makedirs(src)
     files = case['files']
-    for name, content in files:
-        open(os.path.join(src, name), 'w', encoding='utf-8', newline='').write(content)
+    for k, (name, content) in enumerate(files):
+        if case.get('links') and k % 2 == 0:
+            # the source is a symbolic link to a regular file kept elsewhere
+            real = os.path.join(tmp, 'shared')
+            os.makedirs(real, exist_ok=True)
+            open(os.path.join(real, 'f%d' % k), 'w', encoding='utf-8', newline='').write(content)
+            os.symlink(os.path.join(real, 'f%d' % k), os.path.join(src, name))
+        else:
+            open(os.path.join(src, name), 'w', encoding='utf-8', newline='').write(content)
     ext = case['ext']
     out = os.path.join(tmp, case['outdir']) if case['outdir'] else None
     args = ['build', '-i', os.path.join(src, '*.' + ext)]
@@ -257,7 +264,7 @@ def gen_build(rng, circles):
     if rng.random() < 0.2 and 'old.svg' not in names:
         files.append(('old.svg', '<svg/>\n'))
     return {'kind': 'build', 'files': files, 'ext': rng.choice(['bob', 'bob', 'bob', 'txt']), 'outdir': rng.choice(['', 'out', 'deep/er/out']),
-            'stale': rng.choice([0, 0, 1, 2]), 'twice': rng.random() < 0.25}
+            'stale': rng.choice([0, 0, 1, 2]), 'twice': rng.random() < 0.25, 'links': rng.random() < 0.3}
 
 
 def gen_error(rng):
